@@ -196,6 +196,16 @@ CLAIMED = {
             "sample of the configuration product in the quick tier; libjsonnet text compared as JSON; right-most -J wins is assumed; "
             "JSONNET_PATH and env-var variables are left to C07 / not modelled",
             "DESIGN.md section C15"),
+    "C14": ("TLA+ spec Formats (68 hostile string atoms with their classes, 7 value shapes, Domain(format, value) in {in, out, open}) "
+            "model-checked by TLC; every enumerated value written by the 24 writers (std.manifest* with all option combinations and the "
+            "CLI output formats) on the implementation and read back by independent parsers",
+            "TLC enumerates the values and decides, per format, whether a value is in the domain (the text must be well-formed and read "
+            "back as the same data by PyYAML / tomllib / ast / xml.etree / configparser), outside it (the writer must fail) or left open "
+            "(no crash); the model's atom classes are re-derived from the actual characters on every run",
+            "readers are third-party / stdlib parsers (YAML 1.1 semantics for PyYAML); a final line break is appended before reading YAML; "
+            "multi-line strings outside the block-scalar-safe class, XML-unrepresentable characters, INI / Python-variable names outside "
+            "the identifier class are left open; quick tier pairs every atom with a covering sample of second atoms",
+            "DESIGN.md section C14"),
     "C04": ("TLA+ specs Total (per-thread outcome protocol and histories), Stack (frame counter) and StdSig (boundary "
             "tuples) model-checked by TLC; source texts, every std function x boundary tuples, recursion sweeps and TLC-enumerated "
             "failure histories executed on the implementation and trace-validated against Trace_Total",
